@@ -8,8 +8,8 @@ from props import rt
 PID = "C04"
 LEVEL = "proof"
 MODULE = "Sigc.Props.C04"
-EXTRA_MODULES = ("Sigc.Props.Refine", "Sigc.Props.SpecK",)   # refinement P ⊑ S', S' ≡ S on runs clear of the known findings
-REQUIRED = ["Sigc.Refine.refines", "Sigc.SpecK.model_refines_pure_spec"]
+EXTRA_MODULES = ("Sigc.Props.Refine", "Sigc.Props.SpecK", "Sigc.Props.SlotG",)   # refinement P ⊑ S', S' ≡ S on runs clear of the known findings
+REQUIRED = ["Sigc.SlotG.connected_iff", "Sigc.SlotG.connected_false_forever", "Sigc.SlotG.conn_false_after_delS", "Sigc.SlotG.conn_false_after_move", "Sigc.Refine.refines", "Sigc.SpecK.model_refines_pure_spec"]
 TRUSTED = rt.TRUSTED_RT
 ASSUMPTIONS = rt.ASSUMPTIONS_RT + []
 PARTIAL = []
@@ -28,7 +28,7 @@ def profiles(thorough):
 
 
 def correspondence(ctx):
-    return rt.run(ctx, sys.modules[__name__])
+    return rt.add_slotg_stage(ctx, rt.run(ctx, sys.modules[__name__]), 'C04')
 
 
 def search(ctx, disagreements):
